@@ -41,8 +41,8 @@ def install_cbc():
 def gen_instance(rng, graph=None, max_comps=6, max_agents=4, tiny=False, asymmetric_routes=False, secp_hint_p=0.4, pin_bias=False):
     graph = graph or rng.choice(list(GRAPHS))
     case = gen.gen_case(rng, min_vars=1, max_vars=3 if tiny else 5, max_dom=2, palettes=("ties",), max_space=64,
-                        var_costs=False, binary_only=(graph == "ordered_graph"), nary=not tiny,
-                        unary=not tiny and graph != "ordered_graph", dup_scopes=not tiny)
+                        var_costs=False, binary_only=(graph == "ordered_graph"), nary=True,
+                        unary=not tiny and graph != "ordered_graph", dup_scopes=True)
     if tiny and graph == "factor_graph":
         # keep variables + factors <= 5
         while len(case["variables"]) + len(case["constraints"]) > 5 and case["constraints"]:
